@@ -90,6 +90,15 @@ def run(ctx):
                 f.write('\ncommand: vh-race conc -mode %s -n %d -g 5 -ops 8 -seed %d -stacks %s\n' % (mode, n, ctx.seed * 100 + i, stacks))
             ctx.violations.append(dict(replay=rp, event='DATA RACE reported by the Go race detector (report in the replay file)', module='race', sig='race'))
             continue
+        if p.returncode == 67:
+            # the unrecorded sweep met a call that never returned
+            os.makedirs(os.path.join(vlib.VERIF, 'replays'), exist_ok=True)
+            rp = os.path.join(vlib.VERIF, 'replays', 'C08-hang-%d.txt' % ctx.seed)
+            with open(rp, 'w') as f:
+                f.write(p.stderr[-2000:])
+                f.write('\ncommand: vh-race conc -mode %s -n %d -g 5 -ops 8 -seed %d -stacks %s\n' % (mode, n, ctx.seed * 100 + i, stacks))
+            ctx.violations.append(dict(replay=rp, event='a call on the registry never returned while other goroutines were using it (deadlock; details in the replay file)', module='hang', sig='hang'))
+            continue
         if p.returncode != 0:
             raise vlib.Machinery('stress run failed (exit %d): %s' % (p.returncode, p.stderr[-2000:]))
         if mode == 'stress':
